@@ -9,9 +9,12 @@ PROGS = ["f0", "f0 d0", "k0 d0 d1", "f0 f1 d0 d1", "l0 d0", "d0", "f0 k1 d0", "c
 class C06(ConcBase):
     id = "C06"
     design_ref = "DESIGN.md section 5 / C06"
-    theorems_note = ("rc_accounting (in every reachable state before teardown: reference count = owned handles + compensation in flight), "
-                     "teardown_alone (the step that reads 1 is taken when no other thread owns a handle or is inside an operation), "
-                     "no_double_free / blocks_live (every freed block was live and is freed once), all frees after the last use")
+    theorems_note = ("for every number of threads, all programs and every schedule (Reach): rc_accounting (before the teardown the "
+                     "reference count = owned handles + compensation queued in loser paths; a thread inside an operation owns a handle), "
+                     "count_positive, teardown_alone (never earlier: the step that starts the teardown reads 1 and no other thread owns a "
+                     "handle or is inside an operation), free_once (never twice: freed blocks are pairwise different and not live; every "
+                     "live block is claimed exactly once by the root, a slot, a candidate or a queued free), no_leak (never leaked: when "
+                     "all threads are done the teardown has run and no block, node slot or node datum is left)")
     assumptions = [
         "counter arithmetic is modelled in Z: fewer than 2^32 - 2 owned handles at once and fewer than 2^31 materialised elements "
         "(the teardown decrements below zero, wrapping the u32)",
